@@ -27,6 +27,9 @@ def shards(tier, seed):
     for i in range(2 if q else 8):
         out.append(("boundary_rand_%d" % i, dict(kind="boundary", which="rand", count=60 if q else 300)))
     out.append(("decoders", dict(kind="decoders", count=150 if q else 1500)))
+    out.append(("child_decoders", dict(kind="decoders", count=60 if q else 600, _pyopt="opt")))
+    out.append(("child_boundary_curves", dict(kind="boundary", which="curves", _pyopt="opt+hashseed")))
+    out.append(("child_exh", dict(kind="exh", nmax=40 if q else 120, part=0, parts=1, _pyopt="opt")))
     out.append(("concurrent", dict(kind="concurrent", runs=150 if q else 2000)))
     out.append(("der_fuzz", dict(kind="der_fuzz", count=6000 if q else 120000)))
     return out
@@ -142,8 +145,9 @@ def check_helpers(ctx, n, v):
         ctx.violation("helpers_raise", "helper raised %s for v=%d n=%d: %s" % (type(e).__name__, v, n, e), dict(n=n, v=v))
         return
     ctx.check(ok, "helpers_wrong", "orderlen/number_to_string/string_to_number inconsistent for v=%d n=%d" % (v, n), dict(n=n, v=v))
-    # fixedlen must refuse other lengths
-    for bad in (s[1:], b"\x00" + s):
+    # fixedlen must refuse other lengths (it does so with an assert statement: nothing to observe under python -O, where the
+    # signature decoders' own length checks are what counts - see check_decoders)
+    for bad in (s[1:], b"\x00" + s) if __debug__ else ():
         try:
             util.string_to_number_fixedlen(bad, n)
             ctx.violation("fixedlen_accepts_wrong_length", "string_to_number_fixedlen accepted %d bytes for n=%d" % (len(bad), n), dict(n=n))
@@ -270,6 +274,19 @@ def run(ctx, name, kind, **kw):
                 n = rng.getrandbits(bits) | (1 << (bits - 1))
                 orders.append(n)
             orders += [2 ** 8, 2 ** 8 - 1, 2 ** 8 + 1, 2 ** 16, 2 ** 16 - 1, 2 ** 16 + 1, 2 ** 255, 2 ** 256 - 1, 2 ** 256, 2 ** 256 + 1]
+        if kw["which"] == "curves":
+            # "any order": orders whose DER signature needs a 2-, 3- and 4-octet length (INTEGER bodies of 200, 40000 bytes; SEQUENCE >= 2^16 bytes)
+            for nb in (200, 33000) + ((2 ** 23 + 5,) if ctx.tier != "quick" else ()):
+                n = (1 << (8 * nb)) - rng.randrange(1, 1000)
+                for r, s in ((n - 1, n - 2), (1, n - 1), (rng.randrange(n), rng.randrange(n))):
+                    ctx.case("rt.giant_order", key="%d" % nb)
+                    try:
+                        check_triplet(ctx, n, r, s, detail=False)
+                    except ValueError as e:      # the harness could not print a discrepancy in decimal (int -> str digit limit): report it in bits
+                        if "digit" not in str(e):
+                            raise
+                        ctx.violation("giant_order_codec_wrong", "one of the three codecs fails to round-trip (r, s) for an order of %d bits (r has %d bits, s %d)" % (n.bit_length(), r.bit_length(), s.bit_length()),
+                                      dict(order_bits=n.bit_length()))
         for n in orders:
             vals = rs_values(n, rng)
             for v in vals:
@@ -292,7 +309,9 @@ def run(ctx, name, kind, **kw):
                          ("sigencode_der", util.sigencode_der, (r, s, n), R.enc_sig(r, s)), ("sigdecode_der", util.sigdecode_der, (R.enc_sig(r, s), n), (r, s)),
                          ("sigdecode_strings", util.sigdecode_strings, ((raw[:L], raw[L:]), n), (r, s)), ("orderlen", util.orderlen, (n,), L),
                          ("number_to_string", util.number_to_string, (r, n), raw[:L])]
-        S.concurrent_purity(ctx, S.codes_of(util) + S.codes_of(der, {"remove_sequence", "remove_integer", "read_length", "encode_integer", "encode_sequence", "encode_length"}), jobs, rng, kw["runs"])
+        codes = S.codes_of(util) + S.codes_of(der, {"remove_sequence", "remove_integer", "read_length", "encode_integer", "encode_sequence", "encode_length"})
+        S.concurrent_purity(ctx, codes, jobs, rng, kw["runs"])
+        S.reentrant_purity(ctx, codes, jobs, rng, max(12, kw["runs"] // 6))
     elif kind == "decoders":
         orders = [lib.dom_of(c).n for c in lib.ALL_CURVES]
         for _ in range(kw["count"]):
